@@ -89,7 +89,7 @@ THEOREMS = {
             "Iauthd.Conf.entry_obj_spec", "Iauthd.Conf.parse_fuel_suffices", "Iauthd.Conf.parse_no_fault",
             "Iauthd.Conf.load_total", "Iauthd.Conf.failed_load_inert", "Iauthd.Properties.C14"] + CEX,
     "C15": ["Iauthd.Conf.merge_ok", "Iauthd.Conf.merge_no_fault", "Iauthd.Conf.load_settles_aux", "Iauthd.Conf.load_settles",
-            "Iauthd.Conf.reload_idem_aux", "Iauthd.Conf.load_idempotent", "Iauthd.Conf.load_twice",
+            "Iauthd.Conf.reload_idem_aux", "Iauthd.Conf.load_idempotent", "Iauthd.Conf.load_twice", "Iauthd.Conf.load_spelling",
             "Iauthd.Conf.str_hook_iff", "Iauthd.Conf.list_hook_iff", "Iauthd.Conf.pair_hook_iff", "Iauthd.Conf.updInaddr_val",
             "Iauthd.Conf.walk_unmodified_keys", "Iauthd.Conf.register_no_fault", "Iauthd.Conf.history_no_fault",
             "Iauthd.Conf.C15_canonical", "Iauthd.Conf.register_lookup", "Iauthd.Conf.regStr_value",
